@@ -10,6 +10,7 @@ VARIABLE x
 
 Universe == CASE Kind = "ttl" -> TtlTexts
               [] Kind = "make" -> Ttl1
+              [] Kind = "via" -> TtlViaTexts
               [] Kind = "range" -> RangeTexts
               [] Kind = "srow" -> SRows
               [] Kind = "s32cmp" -> S32Pairs
